@@ -20,7 +20,7 @@ CLAIMED = {
         "decrements exactly one matching counter by one, and (racing variant: every atomic access may observe an arbitrary value) never calls the handler with a negative remaining count "
         "and at most once; Set.Add preserves the representation invariant; Set.Current lists exactly the descriptors that still have injections left (nested loops over the map of descriptor lists). A pure counting lemma links 'decrement returned >= 0' to min(N, calls).",
    note="Schedules are not explored: atomic.AddInt64/LoadInt64 linearisability is an assumed axiom; the racing variant models interference by havocking the counter before every atomic access. "
-        "Set.Current is under contract (the listing shows exactly the descriptors with a positive remaining count, and no operation without any); Set.prune (the in-place clean-up) is not. "+TRUST,
+        "Set.Current is under contract (the listing shows exactly the descriptors with a positive remaining count, and no operation without any); Set.prune, the in-place clean-up run in the background, is under contract too (no descriptor with injections left is lost, nothing is invented, no counter changes; sequential reading under the set's lock). "+TRUST,
    design="4/C18"),
  "C10": dict(
    text="Deductive proof of the sequential obligations the no-lost-wake-up protocol rests on. W1: actions.WakePublishListeners wakes (closes the one-shot channel of) and unregisters every "
